@@ -7,7 +7,7 @@ from lib.common import cz, cn, chx, clist, cpair, cbool, cstr
 OPAQUE_SHAPES = {
     'Address': 'bytes', 'PointerAddress': 'bytes', 'TransactionOutput': 'output', 'AuxiliaryData': 'auxdata',
     'AlonzoMetadata': 'tag259', 'RawPlutusData': 'any', '_ScriptRef': 'tag', 'PoolId': 'bytes',
-    'Asset': 'map', 'MultiAsset': 'map', 'Value': 'array', 'CostModels': 'never',
+    'Asset': 'map', 'MultiAsset': 'map', 'Value': 'value', 'CostModels': 'never',
     'StakeCredential': 'list', 'DRepCredential': 'list', 'CommitteeColdCredential': 'list',
     'DRep': 'list', 'GovActionId': 'list', 'VotingProcedure': 'list', 'Voter': 'list',
     'VerificationKeyWitness': 'list', 'PoolRegistration': 'list', 'SingleHostAddr': 'list', 'SingleHostName': 'list',
